@@ -290,7 +290,7 @@ def c17_frame_optical(ctx, form, dtype):
 LAYOUTS = ([0, 0], [0, 0, 0], [2, 0], [0, 2], [2, 3], [3, 0, 0], [2, 2, 0])
 
 
-@ob("C17.frame_stack", kind="B", cases=[dict(layout="-".join(map(str, l)), times=t, payload=p) for l in LAYOUTS for t in ("dates", "none") for p in ("scalar", "optical")], funcs=FUNCS, samples=(1, 1),
+@ob("C17.frame_stack", kind="B", cases=[dict(layout="-".join(map(str, l)), times=t, payload=p) for l in LAYOUTS for t in ("dates", "none", "times-descending") for p in ("scalar", "optical")], funcs=FUNCS, samples=(1, 1),
     cite="stacking ... leave every argument (pixel data, metadata and caller-owned containers ...) exactly as it was",
     note="bounded: every layout of single-time images (0) and series (k = number of time steps) in the list, with and without dates; deep snapshots incl. date / time lists")
 def c17_frame_stack(ctx, layout, times, payload):
@@ -304,6 +304,9 @@ def c17_frame_stack(ctx, layout, times, payload):
         if times == "dates":
             kw["date"] = [t0 + timedelta(hours=k + j) for j in range(nt)] if nt else t0 + timedelta(hours=k)
             kw["reference_date"] = t0
+        elif times == "times-descending":
+            # relative times that DEcrease along the list: the order of the caller's list is the caller's business
+            kw["time"] = [100.0 - (k + j) for j in range(nt)] if nt else 100.0 - k
         k += max(nt, 1)
         cls = darsia.OpticalImage if payload == "optical" else darsia.ScalarImage
         imgs.append(cls(rng.random(shape), **({"color_space": "RGB"} if payload == "optical" else {}), **kw))
